@@ -97,13 +97,22 @@ def d2_decimation(ctx):
         if isinstance(st, ast.Assign) and loc_name(st.targets[0]) == "self.taper":
             v = st.value
             if isinstance(v, ast.Subscript) and isinstance(v.value, ast.Attribute) and v.value.attr == "r_":
-                parts = v.slice.elts
+                parts = v.slice.elts if isinstance(v.slice, ast.Tuple) else [v.slice]
                 n = Poly.const(0)
                 for p in parts:
                     if isinstance(p, ast.Constant):
                         n = n + Poly.const(1)
                     elif isinstance(p, ast.Call) and call_name(p) == "cosine":
                         n = n + ev.ev(p.args[0])
+                    elif isinstance(p, ast.Subscript) and isinstance(p.slice, ast.Slice) and p.slice.step is None and \
+                            ((p.slice.lower is None and p.slice.upper is not None) or
+                             (p.slice.upper is None and isinstance(p.slice.lower, ast.UnaryOp) and isinstance(p.slice.lower.op, ast.USub))):
+                        # head x[:a] / tail x[-a:] of a longer vector: a points (the vector is at least a long: a window holds its ramps)
+                        try:
+                            n = n + (ev.ev(p.slice.upper) if p.slice.lower is None else ev.ev(p.slice.lower.operand))
+                        except Undecided:
+                            n = None
+                            break
                     else:
                         n = None
                         break
